@@ -3,6 +3,7 @@
 //! Drives the real versatiles-rs crates; writes cases.txt / impl.txt / stats.json into DIR.
 mod common;
 mod alloc_count;
+mod c01_sparse;
 mod c19;
 mod c19_gen;
 mod indep_mvt;
@@ -75,6 +76,7 @@ fn main() {
 		"C09" => c09::run(&args),
 		"C19" => c19::run(&args),
 		"C19child" => c19::child(&args),
+		"C01child" => c01_sparse::child(&args),
 		_ => {
 			eprintln!("unknown property {prop}");
 			std::process::exit(2);
